@@ -52,7 +52,7 @@ def root_of(t):
     while isinstance(t, tuple) and t:
         h = t[0]
         if h in ('field', 'idx', 'get', 'some_of', 'index', 'values', 'keys', 'elem', 'vfield', 'len', 'hashmap',
-                 'err_of'):
+                 'err_of', 'ver'):
             t = t[1]
         elif h == 'ite':
             t = t[2]
@@ -72,7 +72,7 @@ def path_of(t):
         elif h in ('idx', 'get', 'index'):
             out.append('[]')
             t = t[1]
-        elif h in ('some_of', 'values', 'keys', 'elem', 'hashmap'):
+        elif h in ('some_of', 'values', 'keys', 'elem', 'hashmap', 'ver'):
             t = t[1]
         elif h == 'ite':
             t = t[2]
